@@ -16,7 +16,7 @@ CONFIG = {
  'C06': dict(level='proof', tags={'C06'}, owns_crash_ops=['n', 'io', 'ia', 'lo', 'la'], profiles=[('nav', 48000, 1536000), ('navg', 12000, 384000), ('xnav', 46, 58)], assumptions=[A_MODEL, A_SIZE]),
  'C07': dict(level='proof', tags={'C07'}, owns_crash_ops=['f', 'fz', 'F', 'Fz'], profiles=[('nav', 48000, 1536000), ('xnav', 46, 57)], assumptions=[A_MODEL, A_SIZE]),
  'C08': dict(level='proof', tags={'C08'}, profiles=[('stream', 60000, 1920000)], assumptions=[A_MODEL, A_SIZE]),
- 'C09': dict(level='proof', tags={'C09'}, profiles=[('any', 36000, 1152000), ('writer', 9600, 307200), ('stream', 9600, 307200)], assumptions=[A_MODEL, A_SIZE]),
+ 'C09': dict(level='proof', tags={'C09'}, profiles=[('any', 36000, 1152000), ('writer', 9600, 307200), ('stream', 9600, 307200), ('nav', 24000, 768000)], assumptions=[A_MODEL, A_SIZE]),
  'C10': dict(level='proof', tags={'C10'}, owns_crash=['writer'], profiles=[('tr', 36000, 1152000), ('rt', 6000, 192000)], assumptions=[A_MODEL, A_SIZE]),
  'C11': dict(level='proof', tags={'C11'}, owns_crash_ops=['gr', 'p2w'], profiles=[('nav', 48000, 1536000), ('xnav', 46, 57)], assumptions=[A_MODEL, A_SIZE]),
  'C12': dict(level='proof', tags={'C12'}, owns_crash=['writer'], profiles=[('reuse', 36000, 1152000), ('writer', 6000, 192000)], assumptions=[A_MODEL, A_SIZE]),
